@@ -476,6 +476,26 @@ class C02(L1Prop):
                    f"http POST av hyph={['nil', 'fresh', '$odd1'][k % 3]} hyph=9 history b:2,{k}", "dumpall",
                    "http POST av hyph=latest:9 hyph=9 history b:3", "dumpall", "http POST av hyph=nil hyph=9 history b:4", "dumpall"]
             out.append(Case(f"c02-newfault-{k}", ops, {"only": "sqlite", "faults": True, "http": True}, mode="http"))
+        # several server objects on one directory that came into being at the same moment in the same process (the workers of
+        # one executable): every upload, through whichever of them, is issued an id never issued before
+        for k in range(sizes(tier, 4, 16)):
+            ops = ["ensure 1", "ensure 2", "instpre 1 2 3 4"]
+            for step in range(3):
+                for i in (1, 2, 3, 4):
+                    c = 1 + (i + step + k) % 2
+                    ops += [f"inst {i}", "dumpall", f"av {c} latest:{c} b:{step},{i}", "dumpall"]
+            ops += ["inst 0", "walk 1", "walk 2"]
+            out.append(Case(f"c02-twins-{k}", ops, {"only": "sqlite"}))
+        # several clients upload the SAME bytes on the SAME parent (nil, a shared foreign parent): each is issued an id never
+        # issued before
+        for k in range(sizes(tier, 6, 24)):
+            par = ["nil", "$1", "nil"][k % 3]
+            ops = []
+            for c in (1, 2, 3):
+                ops += [f"ensure {c}", "dumpall", f"av {c} {par} b:5,{k % 200}", "dumpall"]
+            for c in (1, 2, 3):
+                ops += ["dumpall", f"av {c} latest:{c} b:6", "dumpall"]
+            out.append(Case(f"c02-same-{k}", ops))
         # a server restricted to a list of clients, restarted (same list, another list, no list) in the middle of
         # the clients' histories: acceptance is still decided by the stored latest version
         for k in range(sizes(tier, 8, 50)):
@@ -563,6 +583,12 @@ class C07(L1Prop):
             ops, g = rand_prefix(rng, rng.randint(6, length), nc, k % 4 == 0, True, True, obs)
             ops += ["reopen"] + [f"reread {c}" for c in range(1, nc + 1)]
             out.append(Case(f"c07-{k}", ops))
+        # the parent is asked about BEFORE the client's first upload names it (not-found then), and again afterwards
+        for k in range(sizes(tier, 6, 24)):
+            par = ["$1", "nil", "$odd1a", "client:1"][k % 4]
+            ops = (["ensure 1"] if k % 2 else []) + [f"gcv 1 {par}", f"gcv 1 {par}", f"av 1 {par} b:1,{k % 200}", f"gcv 1 {par}", "av 1 latest:1 b:2", f"gcv 1 {par}", "gcv 1 latest:1",
+                    "av 1 latest:1 b:3", "gcv 1 anc:1:1", f"gcv 1 {par}", "reread 1"]
+            out.append(Case(f"c07-asked-first-{k}", ops))
         # a storage call fails while an accepted version is being read back: the answer may be an error — never that
         # the version does not exist (gone / not-found), and afterwards it is read as ever
         for k in range(sizes(tier, 6, 30)):
@@ -749,6 +775,22 @@ class C08(L1Prop):
                 ops += [f"gcv {c} {spec}", f"av {c} {spec} b:77,{j}"]
             return ops
         out += fixture_cases("c08", rng, sizes(tier, 7, 28), tail)
+        # a server restricted to a list that does NOT name a client whose history it stores (dropped from the list at a
+        # restart): the question and the upload that follows get the same kind of answer
+        for k in range(sizes(tier, 6, 20)):
+            ops = [f"http POST av hyph=nil hyph={c} history b:1,{c}" for c in (1, 2)] + [f"http POST av hyph=latest:{c} hyph={c} history b:2,{c}" for c in (1, 2)]
+            ops += [f"allow {['1', '2', '3', '1,3'][k % 4]}"] + (["reopen"] if k % 2 else [])
+            for c in (1, 2):
+                for spec in (f"latest:{c}", f"anc:{c}:1", "nil", "$1"):
+                    ops += [f"http GET gcv hyph={spec} hyph={c} absent e", f"http POST av hyph={spec} hyph={c} history b:3,{k % 100}"]
+            out.append(Case(f"c08-allow-{k}", ops, {"http": True, "allow": True}, mode="http"))
+        # an upload fails in storage (at the write, at the commit); afterwards the question and the upload that follows agree
+        for k in range(sizes(tier, 6, 24)):
+            n = 1 + k % 3
+            ops = ["ensure 1"] + [f"av 1 {'nil' if i == 0 else 'latest:1'} b:1,{i}" for i in range(n)]
+            for j, plan in enumerate(["2:before", "3:before", "1:before", "0:before", "2:after"][: 2 + k % 4]):
+                ops += [f"fault {plan}", f"av 1 latest:1 b:6,{j}", "gcv 1 latest:1", f"av 1 latest:1 b:7,{j}", "gcv 1 anc:1:1", f"av 1 anc:1:1 b:8,{j}"]
+            out.append(Case(f"c08-avfault-{k}", ops, {"only": "sqlite", "avfault": True}))
         # versions whose history segment is EMPTY somewhere in the chain (the library accepts them; only the HTTP
         # handler refuses an empty body): asked about their parents, about themselves, and the upload that follows
         for k in range(sizes(tier, 8, 30)):
@@ -825,6 +867,10 @@ class C08(L1Prop):
                 a, b = HOp(trace[i][0]), HOp(trace[i + 1][0])
                 if a.route == "gcv" and b.route == "av" and a.valid() and b.valid() and a.cid == b.cid and a.seg == b.seg:
                     g, v = HResp(trace[i][1]).status, HResp(trace[i + 1][1]).status
+                    if case.meta.get("allow") and 403 in (g, v):
+                        if g != v:
+                            fails.append(f"op {i}: under the allow-list GET get-child-version/{a.seg} of client {a.cid} answered {g} but the upload on that parent answered {v}")
+                        continue
                     if g == 404 and v != 200:
                         fails.append(f"op {i}: GET get-child-version/{a.seg} answered 404 (nothing to fetch: an upload on this parent would be accepted) but the upload that followed was answered {v}")
                     if g == 410 and v != 409:
@@ -2070,6 +2116,14 @@ class C18(L1Prop):
                 req = [f"av 1 latest:1 b:6,{idx}", f"as 1 latest:1 b:8,{idx}", "gcv 1 nil", f"av 1 nil b:7,{idx}", "gs 1"][(k + idx) % 5]
                 ops += ["dumpall", "rows", f"fault {idx}:before", req, "dumpall", "rows"]
             out.append(Case(f"c18-fault-{k}", ["dumpall", "rows"] + ops, {"only": "sqlite", "faults": True}))
+        # another connection keeps a read transaction open (a backup tool, a shell) while versions of several megabytes are
+        # uploaded: every request is either answered with success or has changed nothing
+        for k in range(sizes(tier, 2, 6)):
+            ops = ["ensure 1", "av 1 nil b:1", "holdread" if k % 2 == 0 else "hold"]
+            for j in range(2):
+                ops += ["dumpall", "rows", f"av 1 latest:1 z:{[9437184, 12582912, 17825792][(k + j) % 3]}:{j + 1}", "dumpall", "rows", f"as 1 latest:1 z:9437184:{j + 3}", "dumpall", "rows"]
+            ops += ["unhold", "dumpall", "rows", "av 1 latest:1 b:9", "dumpall", "rows"]
+            out.append(Case(f"c18-held-{k}", ["dumpall", "rows"] + ops, {"only": "sqlite"}))
         # several server instances on one directory, used in turn: what one of them refuses (a stale parent, an old
         # snapshot version — stale or old because ANOTHER instance moved on) changes nothing
         for k in range(sizes(tier, 8, 50)):
